@@ -84,6 +84,21 @@ pub fn grid_fact(ev: Ev) -> Vec<String> {
     for t in ["170", "171", "200", "0.1", "0.9", "(-0.9)", "(-0.1)"] {
         g.push(t.to_string());
     }
+    // next to the poles of x! (the negative integers): -n +- 2^-k, written out exactly
+    for n in (1..=24i32).chain([50, 99, 100, 149]) {
+        for k in [8i32, 16, 24, 30, 36, 44] {
+            for sgn in [-1.0f64, 1.0] {
+                let x = -(n as f64) + sgn * 2f64.powi(-k);
+                if x + n as f64 == sgn * 2f64.powi(-k) {
+                    let mut t = format!("{:.70}", x.abs());
+                    while t.ends_with('0') {
+                        t.pop();
+                    }
+                    g.push(format!("(-{})", t));
+                }
+            }
+        }
+    }
     g
 }
 
